@@ -111,6 +111,16 @@ def havoc(I, node, fr, lc):
         o.fields[name] = I.fresh_of_type(ty, "%s.%s" % (I.obj_hint(base), name))
 
 
+def snapshot_entry(I, node, fr, label):
+    """ghost copies _entry<k>_<name> of the variables the loop assigns, taken when the loop is reached
+    (invariants can relate the current value to the value at loop entry)"""
+    k = label.split("#")[1]
+    names, _, _ = assigned_targets(I, list(node.body) + list(node.orelse), fr)
+    for n in names:
+        if n in fr.locals:
+            fr.locals["_entry%s_%s" % (k, n)] = fr.locals[n]
+
+
 def check_invs(I, lc, fr, name, extra_env=None):
     for i, inv in enumerate(lc.get("inv", [])):
         t = I.E.eval_spec(I, inv, fr, extra_env or {})
@@ -157,6 +167,7 @@ def exec_while(I, node, fr):
                 continue
     lc = dict(lc)
     lc["_label"] = label
+    snapshot_entry(I, node, fr, label)
     check_invs(I, lc, fr, "loop-entry")
     havoc(I, node, fr, lc)
     assume_invs(I, lc, fr)
